@@ -704,18 +704,20 @@ Proof.
 Qed.
 
 Lemma comment_strip s0 s left right s1 :
-  comment s left right = Ok s1 -> adv s0 s -> 0 <= pos s0 -> delim s0 <> [] ->
+  comment s left right = Ok s1 -> adv s0 s -> pos s0 < pos s -> 0 <= pos s0 -> delim s0 <> [] ->
   (pos s = zlen left -> pos s0 = 0 /\ input s0 = left ++ skipn (length left) (input s0)) ->
   ((left = [45%N; 45%N] /\ right = NL) \/ (left = [47%N; 42%N] /\ right = [42%N; 47%N])
      \/ (HashComments o = true /\ left = [35%N] /\ right = NL)) ->
-  adv s0 s1 \/ Strip s0 s1.
+  (adv s0 s1 /\ pos s0 < pos s1) \/ (Strip s0 s1 /\ pos s0 = 0 /\ zlen (input s1) < zlen (input s0)).
 Proof.
-  intros H A Hp Hd Hleft Hk. destruct A as (I1 & I2 & I3 & I4).
+  intros H A Hlt Hp Hd Hleft Hk. destruct A as (I1 & I2 & I3 & I4).
   apply comment_cases in H; [|lia]. destruct H as [H|(Hpos & body & sp & H1 & H2 & H3 & H4 & H5 & H6 & H7)].
-  - left. eapply adv_trans; [|exact H]. repeat split; auto.
+  - left. split; [eapply adv_trans; [|exact H]; repeat split; auto|destruct H as (_ & _ & _ & ?); lia].
   - right. destruct (Hleft Hpos) as [Hp0 Hin]. rewrite Hpos, to_nat_zlen, I1 in H1.
     assert (input s0 = (left ++ body ++ right) ++ sp ++ input s1) as Hdec.
     { rewrite Hin, H1, <- !app_assoc. reflexivity. }
+    assert (1 <= zlen left) as Hl1 by (destruct Hk as [[-> _]|[[-> _]|(_ & -> & _)]]; unfold zlen; simpl; lia).
+    split; [|split; [exact Hp0|rewrite Hdec, !zlen_app; pose proof (zlen_nonneg body); pose proof (zlen_nonneg right); pose proof (zlen_nonneg sp); lia]].
     repeat split; auto.
     + congruence.
     + rewrite Hdec, !zlen_app. lia.
@@ -729,7 +731,8 @@ Lemma delim_strip f s0 s s1 hd :
   delimCmd o f (addPos s (zlen S_DELIMITER - 1)) = Ok s1 -> adv s0 s -> pos s0 = 0 -> pos s = 1 ->
   delim s0 <> [] -> starts_space (input s0) = false ->
   slice_to (input s) (zlen S_DELIMITER) = Ok hd -> has_prefix_ci hd W_DELIMITER = true -> length hd = 9%nat ->
-  adv s0 (skipSpaces s1) \/ Strip s0 (skipSpaces s1).
+  (adv s0 (skipSpaces s1) /\ pos s0 < pos (skipSpaces s1)) \/
+  (Strip s0 (skipSpaces s1) /\ pos s0 = 0 /\ zlen (input (skipSpaces s1)) < zlen (input s0)).
 Proof.
   intros H A Hp0 Hp1 Hd Hns Hhd Hci Hlen. destruct A as (I1 & I2 & I3 & I4).
   change (zlen S_DELIMITER - 1) with 8 in H. change (zlen S_DELIMITER) with 9 in Hhd.
@@ -737,13 +740,16 @@ Proof.
   destruct H as [H|(arg & nl & d0 & H1 & H2 & H3 & H4 & H5 & H6 & H7 & H8 & H9)].
   - left. assert (adv s0 s1) as A1.
     { eapply adv_trans; [|exact H]. unfold adv; simpl. repeat split; auto; lia. }
-    eapply adv_trans; [exact A1|]. apply skipSpaces_adv. destruct A1 as (E & _). rewrite E. exact Hns.
+    split; [eapply adv_trans; [exact A1|]; apply skipSpaces_adv; destruct A1 as (E & _); rewrite E; exact Hns|].
+    destruct H as (_ & _ & _ & Hm). simpl in Hm. unfold skipSpaces; simpl. lia.
   - right. simpl in H1, H9. rewrite I1 in *.
     apply slice_to_ok in Hhd as [_ Hhd]. change (Z.to_nat 9) with 9%nat in Hhd.
     assert (input s0 = hd ++ arg ++ nl ++ input s1) as Hdec.
     { rewrite <- H1, Hhd. symmetry; apply firstn_skipn. }
     destruct (trim_left_decomp (input s1)) as (sp & Hsp & Hsp2 & Hsp3).
     assert (zlen hd = 9) as Hzhd by (unfold zlen; lia).
+    split; [|split; [exact Hp0|unfold skipSpaces; simpl; rewrite Hdec, !zlen_app; rewrite Hsp at 2; rewrite zlen_app;
+      pose proof (zlen_nonneg arg); pose proof (zlen_nonneg nl); pose proof (zlen_nonneg sp); lia]].
     unfold Strip, skipSpaces; simpl. repeat split; auto.
     + rewrite H7. apply unescape_delim_nonnil. exact H6.
     + rewrite Hdec, !zlen_app. lia.
@@ -763,7 +769,8 @@ Lemma stmt_iter_spec f s0 depth opos step :
   stmt_iter o nested f s0 depth opos = Ok step ->
   starts_space (input s0) = false -> delim s0 <> [] ->
   match step with
-  | Continue s1 _ _ => adv s0 s1 \/ Strip s0 s1
+  | Continue s1 _ _ => (adv s0 s1 /\ pos s0 < pos s1) \/
+                       (Strip s0 s1 /\ pos s0 = 0 /\ zlen (input s1) < zlen (input s0))
   | Break s1 text => adv s0 s1 /\ 0 < pos s1 /\
       (text = firstn (Z.to_nat (pos s1)) (input s1) \/ (text = input s1 /\ zlen (input s1) <= pos s1))
   | RetEOF s1 => adv s0 s1 /\ zlen (input s1) <= pos s1 <= 0
@@ -784,11 +791,13 @@ Proof.
   assert (delim s = delim s0) as Hds by (subst s; reflexivity).
   apply slice_from_ok in H1 as [_ Hrest].
   clear Hs.
-  destruct (N.eqb c 40). { inversion H; left; exact A0. }
+  assert (forall s1, adv s s1 -> adv s0 s1 /\ pos s0 < pos s1) as Hprog.
+  { intros s1 A1; split; [eapply adv_trans; eauto|destruct A1 as (_&_&_&?); lia]. }
+  destruct (N.eqb c 40). { inversion H; left; apply Hprog; apply adv_refl. }
   destruct (N.eqb c 41).
-  { destruct (depth =? 0); [apply fail_not_ok in H; contradiction|inversion H; left; exact A0]. }
+  { destruct (depth =? 0); [apply fail_not_ok in H; contradiction|inversion H; left; apply Hprog; apply adv_refl]. }
   destruct (N.eqb c 39 || N.eqb c 34 || N.eqb c 96).
-  { inv_bind H. inversion H; subst. left. eapply adv_trans; [exact A0|eapply skipQuote_adv; eauto]. }
+  { inv_bind H. inversion H; subst. left. apply Hprog. eapply skipQuote_adv; eauto. }
   inv_bind H. rename a into isDelimCmd. destruct isDelimCmd.
   { inv_bind H. inversion H; subst; clear H.
     destruct ((pos s =? 1) && (zlen S_DELIMITER <? zlen (input s))) eqn:E; [|discriminate]. bnorm.
@@ -803,11 +812,11 @@ Proof.
     destruct A0 as (I1 & I2 & I3 & I4). unfold adv, addPos; simpl. rewrite Hds in *.
     repeat split; auto; try lia. }
   clear Ha. inv_bind H. rename a into isDollar. destruct isDollar.
-  { inv_bind H. inversion H; subst. left. eapply adv_trans; [exact A0|eapply skipDollarQuote_adv; eauto]. }
+  { inv_bind H. inversion H; subst. left. apply Hprog. eapply skipDollarQuote_adv; eauto. }
   clear Ha.
   destruct (N.eqb c 35 && HashComments o) eqn:Ehash.
   { inv_bind H. injection H as <-. bnorm. subst c.
-    eapply comment_strip; [exact Ha|exact A0|lia|exact Hd| |right; right; auto].
+    eapply comment_strip; [exact Ha|exact A0|lia|lia|exact Hd| |right; right; auto].
     intros Hp. change (zlen [35%N]) with 1 in Hp. destruct (Hascii ltac:(lia)) as [Hw1 [t Ht]].
     assert (pos s0 = 0) as Hp0 by lia. split; [exact Hp0|]. rewrite Hp0 in Hrest. rewrite Hrest in Ht.
     apply one_byte in Ht. exact Ht. }
@@ -824,7 +833,7 @@ Proof.
     destruct (decode_rune_spec _ _ _ G3 G2) as (_ & Gascii & _).
     destruct (Hascii ltac:(lia)) as [Hw1 [t Ht]]. destruct (Gascii ltac:(lia)) as [Hw2 [t1 Ht1]].
     apply slice_from_ok in G1 as [_ G1].
-    eapply comment_strip; [exact Ha1|eapply adv_trans; eauto|lia|exact Hd| |left; auto].
+    eapply comment_strip; [exact Ha1|eapply adv_trans; eauto|destruct A1 as (_&_&_&?); lia|lia|exact Hd| |left; auto].
     intros Hp. change (zlen [45%N; 45%N]) with 2 in Hp. rewrite Gs in Hp. simpl in Hp.
     assert (pos s0 = 0) as Hp0 by lia. split; [exact Hp0|].
     rewrite Hp0 in Hrest. rewrite Hps, Hp0, His, Hw1 in G1. change (Z.to_nat (0 + 1)) with 1%nat in G1.
@@ -843,7 +852,7 @@ Proof.
     destruct (decode_rune_spec _ _ _ G3 G2) as (_ & Gascii & _).
     destruct (Hascii ltac:(lia)) as [Hw1 [t Ht]]. destruct (Gascii ltac:(lia)) as [Hw2 [t1 Ht1]].
     apply slice_from_ok in G1 as [_ G1].
-    eapply comment_strip; [exact Ha1|eapply adv_trans; eauto|lia|exact Hd| |right; left; auto].
+    eapply comment_strip; [exact Ha1|eapply adv_trans; eauto|destruct A1 as (_&_&_&?); lia|lia|exact Hd| |right; left; auto].
     intros Hp. change (zlen [47%N; 42%N]) with 2 in Hp. rewrite Gs in Hp. simpl in Hp.
     assert (pos s0 = 0) as Hp0 by lia. split; [exact Hp0|].
     rewrite Hp0 in Hrest. rewrite Hps, Hp0, His, Hw1 in G1. change (Z.to_nat (0 + 1)) with 1%nat in G1.
@@ -857,15 +866,15 @@ Proof.
   inv_bind H. rename a into isAtomic. destruct isAtomic.
   { apply after_block_spec with (s0 := s) in H;
       [|intros x Hx; eapply skipBeginAtomic_adv; eauto].
-    destruct step as [s1 d1 o1|s1 text|s1]; [left; eapply adv_trans; eauto| |contradiction].
+    destruct step as [s1 d1 o1|s1 text|s1]; [left; apply Hprog; exact H| |contradiction].
     destruct H as [A1 ->]. split; [eapply adv_trans; eauto|split; [destruct A1 as (_&_&_&?); lia|left; reflexivity]]. }
   clear Ha. rewrite noTry, andb_false_r in H. simpl in H.
   inv_bind H. rename a into isBegin. destruct isBegin.
   { apply after_block_spec with (s0 := s) in H;
       [|intros x Hx; eapply skipBegin_adv; eauto].
-    destruct step as [s1 d1 o1|s1 text|s1]; [left; eapply adv_trans; eauto| |contradiction].
+    destruct step as [s1 d1 o1|s1 text|s1]; [left; apply Hprog; exact H| |contradiction].
     destruct H as [A1 ->]. split; [eapply adv_trans; eauto|split; [destruct A1 as (_&_&_&?); lia|left; reflexivity]]. }
-  inversion H; subst. left. exact A0.
+  inversion H; subst. left. apply Hprog. apply adv_refl.
 Qed.
 End IterSpec.
 
@@ -937,7 +946,7 @@ Proof.
   pose proof (stmt_iter_spec o nested nested_mono noGo noTry _ _ _ _ _ Ha L1 L2) as Hit.
   assert (LI s) as L by (unfold LI; auto).
   destruct a as [s1 d1 o1|s1 text|s1].
-  - eapply IH; [exact H|]. destruct Hit as [A|S]; [eapply LI_adv|eapply LI_strip]; eauto.
+  - eapply IH; [exact H|]. destruct Hit as [[A _]|[S _]]; [eapply LI_adv|eapply LI_strip]; eauto.
   - destruct Hit as (A & Hpos & Htext). inv_bind H. destruct a as [st s2]. simpl in H. injection H as <- <-.
     pose proof (LI_adv _ _ L A) as (M1 & M2 & M3 & M4 & M5).
     assert (text = firstn (Z.to_nat (pos s1)) (input s1)) as Ht.
@@ -1121,3 +1130,334 @@ Proof.
   unfold slice_to. destruct (Pos st <? 0) eqn:E1; [bnorm; lia|]. destruct (zlen inp <? Pos st) eqn:E2; [bnorm; lia|].
   simpl. unfold line_of. rewrite line_walk_count. reflexivity.
 Qed.
+
+(** * Termination: the depth fuel [length input + 2] is never exhausted *)
+Definition rem (s : scanner) : Z := zlen (input s) - pos s.
+
+Lemma bind_fuel {A B} (x : res A) (f : A -> res B) :
+  bind x f = OutOfFuel -> x = OutOfFuel \/ exists a, x = Ok a /\ f a = OutOfFuel.
+Proof. destruct x; simpl; try discriminate; eauto. Qed.
+
+Ltac nf_bind H :=
+  let a := fresh "a" in let Ha := fresh "Ha" in
+  apply bind_fuel in H; destruct H as [H|(a & Ha & H)].
+
+Lemma slice_to_nf s p : slice_to s p <> OutOfFuel.
+Proof. unfold slice_to. destruct (_ || _); discriminate. Qed.
+Lemma slice_nf s p q : slice s p q <> OutOfFuel.
+Proof. unfold slice. destruct (_ || _); discriminate. Qed.
+Lemma index_nf s p : index s p <> OutOfFuel.
+Proof. unfold index. destruct (_ || _); [discriminate|]. destruct (nth_error _ _); discriminate. Qed.
+Lemma error_at_nf s p k : error_at s p k <> OutOfFuel.
+Proof. unfold error_at. intros H. nf_bind H; [apply slice_to_nf in H; auto|discriminate]. Qed.
+Lemma fail_nf {A} s p k : @fail A s p k <> OutOfFuel.
+Proof. unfold fail. intros H. nf_bind H; [apply error_at_nf in H; auto|discriminate]. Qed.
+Lemma nfail_nf s p k : nfail s p k <> OutOfFuel.
+Proof. unfold nfail. intros H. nf_bind H; [apply error_at_nf in H; auto|discriminate]. Qed.
+Lemma next_nf s : next s <> OutOfFuel.
+Proof.
+  unfold next. destruct (_ <=? _); [discriminate|]. intros H. nf_bind H; [apply slice_from_not_fuel in H; auto|].
+  destruct (decode_rune a); discriminate.
+Qed.
+Lemma pick_nf s : pick s <> OutOfFuel.
+Proof. unfold pick. intros H. nf_bind H; [apply next_nf in H; auto|discriminate]. Qed.
+
+Lemma next_rem s c s1 : next s = Ok (Some c, s1) -> rem s1 < rem s.
+Proof.
+  intros H. apply next_some in H as (rest & w & H1 & H2 & H3 & -> & H4).
+  destruct (decode_rune_spec _ _ _ H3 H2) as [Hw _]. unfold rem; simpl. lia.
+Qed.
+Lemma adv_rem s s1 : adv s s1 -> rem s1 <= rem s.
+Proof. intros (A1 & _ & _ & A4). unfold rem. rewrite A1. lia. Qed.
+
+Lemma next_some_rem s c s1 : next s = Ok (Some c, s1) -> 1 <= rem s.
+Proof. intros H. apply next_some in H as (_ & _ & _ & _ & _ & _ & ?). unfold rem. lia. Qed.
+
+Lemma skipQuote_loop_nf f : forall s p0 q e, (0 < f)%nat -> rem s < Z.of_nat f -> skipQuote_loop f s p0 q e <> OutOfFuel.
+Proof.
+  induction f as [|f IH]; intros s p0 q e Hf Hr H; simpl in H; [lia|].
+  nf_bind H; [apply next_nf in H; auto|]. destruct a as [[c|] s1].
+  - pose proof (next_rem _ _ _ Ha) as R1. pose proof (next_some_rem _ _ _ Ha) as R2.
+    destruct (N.eqb c 92 && e).
+    + nf_bind H; [apply next_nf in H; auto|]. destruct a as [r2 s2]. simpl in H.
+      pose proof (adv_rem _ _ (next_adv _ _ _ Ha0)). eapply IH; [| |exact H]; lia.
+    + destruct (N.eqb c q); [discriminate|]. eapply IH; [| |exact H]; lia.
+  - apply fail_nf in H. auto.
+Qed.
+Lemma skipQuote_nf o f s q : (0 < f)%nat -> rem s < Z.of_nat f -> skipQuote o f s q <> OutOfFuel.
+Proof.
+  unfold skipQuote. intros Hf Hr H. nf_bind H.
+  - destruct (BackslashEscapes o); [discriminate|]. destruct (_ && _); [|discriminate].
+    nf_bind H; [apply index_nf in H; auto|discriminate].
+  - eapply skipQuote_loop_nf; eauto.
+Qed.
+
+Lemma skipDollarQuote_loop_nf f : forall s m, (0 < f)%nat -> rem s < Z.of_nat f -> skipDollarQuote_loop f s m <> OutOfFuel.
+Proof.
+  induction f as [|f IH]; intros s m Hf Hr H; simpl in H; [lia|].
+  nf_bind H; [apply next_nf in H; auto|]. destruct a as [[c|] s1].
+  - pose proof (next_rem _ _ _ Ha) as R1. pose proof (next_some_rem _ _ _ Ha) as R2.
+    destruct (N.eqb c 36).
+    + nf_bind H; [apply slice_from_not_fuel in H; auto|]. destruct (has_prefix a m); [discriminate|].
+      eapply IH; [| |exact H]; lia.
+    + eapply IH; [| |exact H]; lia.
+  - destruct (delim s1); [apply fail_nf in H; auto|discriminate].
+Qed.
+Lemma skipDollarQuote_nf f s : (0 < f)%nat -> rem s < Z.of_nat f -> 1 <= pos s -> skipDollarQuote f s <> OutOfFuel.
+Proof.
+  unfold skipDollarQuote. intros Hf Hr Hp H. nf_bind H; [apply slice_from_not_fuel in H; auto|].
+  destruct (re_dollar_quote a) as [n|] eqn:E; [|apply fail_nf in H; auto].
+  apply re_dollar_quote_some in E as [Hn Hne].
+  eapply skipDollarQuote_loop_nf; [| |exact H]; [lia|].
+  unfold rem, addPos; simpl. unfold rem in Hr.
+  assert (1 <= zlen (firstn n a)).
+  { unfold zlen. rewrite firstn_length. destruct a; [congruence|simpl]. lia. }
+  lia.
+Qed.
+
+Lemma to_eol_loop_nf f : forall s r, (1 < f)%nat -> rem s + 1 < Z.of_nat f -> to_eol_loop f s r <> OutOfFuel.
+Proof.
+  induction f as [|f IH]; intros s r Hf Hr H; simpl in H; [lia|].
+  destruct r as [c|]; [|discriminate]. destruct (N.eqb c 10); [discriminate|].
+  nf_bind H; [apply next_nf in H; auto|]. destruct a as [[c1|] s1]; simpl in H.
+  - pose proof (next_rem _ _ _ Ha) as R1. pose proof (next_some_rem _ _ _ Ha) as R2.
+    eapply IH; [| |exact H]; lia.
+  - destruct f; [lia|simpl in H; discriminate].
+Qed.
+
+Lemma comment_nf s l r : comment s l r <> OutOfFuel.
+Proof.
+  unfold comment. intros H. nf_bind H; [apply slice_from_not_fuel in H; auto|].
+  destruct (index_of a r); [|discriminate]. destruct (negb _); [discriminate|].
+  nf_bind H; [apply slice_to_nf in H; auto|]. nf_bind H; [apply slice_from_not_fuel in H; auto|]. discriminate.
+Qed.
+Lemma emit_nf o s t : emit o s t <> OutOfFuel.
+Proof. unfold emit. intros H. nf_bind H; [apply slice_from_not_fuel in H; auto|discriminate]. Qed.
+Lemma setDelim_nf s d : setDelim s d <> OutOfFuel.
+Proof. unfold setDelim. destruct d; discriminate. Qed.
+Lemma delim_of_arg_nf a : delim_of_arg a <> OutOfFuel.
+Proof. unfold delim_of_arg. destruct (_ && _); [|discriminate]. intros H. nf_bind H; [apply slice_nf in H; auto|discriminate]. Qed.
+Lemma delimCmd_nf o f s : (1 < f)%nat -> rem s + 1 < Z.of_nat f -> delimCmd o f s <> OutOfFuel.
+Proof.
+  unfold delimCmd. intros Hf Hr H. nf_bind H; [apply pick_nf in H; auto|]. destruct (negb _); [discriminate|].
+  nf_bind H; [apply pick_nf in H; auto|]. nf_bind H; [eapply to_eol_loop_nf; eauto|].
+  nf_bind H; [apply slice_nf in H; auto|]. nf_bind H; [apply delim_of_arg_nf in H; auto|].
+  nf_bind H; [apply setDelim_nf in H; auto|]. nf_bind H; [apply slice_to_nf in H; auto|].
+  nf_bind H; [apply emit_nf in H; auto|discriminate].
+Qed.
+Lemma init_nf s0 inp : init s0 inp <> OutOfFuel.
+Proof.
+  unfold init. destruct (directive_delimiter inp); [|discriminate]. intros H.
+  nf_bind H; [apply setDelim_nf in H; auto|]. destruct (index_of inp NL); [discriminate|apply fail_nf in H; auto].
+Qed.
+Lemma init_input_len s0 inp s : init s0 inp = Ok s -> zlen (input s) <= zlen inp.
+Proof.
+  unfold init. destruct (directive_delimiter inp); [|intros H; inversion H; simpl; lia].
+  intros H. inv_bind H. apply setDelim_ok in Ha as [_ ->].
+  destruct (index_of inp NL); [|apply fail_not_ok in H; contradiction].
+  inversion H; simpl. unfold zlen. rewrite skipn_length. lia.
+Qed.
+
+Section NestedNF.
+Variable o : opts.
+Variable nested : scanner -> res (scanner * option Stmt).
+Variable fn : nat.
+Hypothesis nested_mono : forall b b' r, pos b = 0 -> delim b <> [] -> nested b = Ok (b', r) ->
+  total b <= total b' /\ pos b' = 0 /\ delim b' <> [].
+Hypothesis nested_prog : forall b b' st, pos b = 0 -> delim b <> [] -> nested b = Ok (b', Some st) ->
+  zlen (input b') < zlen (input b).
+Hypothesis nested_nf : forall b, pos b = 0 -> delim b <> [] -> zlen (input b) + 2 <= Z.of_nat fn ->
+  nested b <> OutOfFuel.
+Hypothesis noGo : GoCommand o = false.
+Hypothesis noTry : MatchBeginTryCatch o = false.
+
+Lemma atomic_loop_nf f : forall s body, pos body = 0 -> delim body <> [] ->
+  zlen (input body) < Z.of_nat f -> zlen (input body) + 2 <= Z.of_nat fn ->
+  atomic_loop nested f s body <> OutOfFuel.
+Proof.
+  induction f as [|f IH]; intros s body Hp Hd Hl Hn H; simpl in H; [pose proof (zlen_nonneg (input body)); lia|].
+  destruct (nested body) as [[body' [st|]]|e| |] eqn:En; try discriminate.
+  - destruct (nested_mono _ _ _ Hp Hd En) as (_ & M2 & M3). pose proof (nested_prog _ _ _ Hp Hd En).
+    destruct (re_end (Text st)); [discriminate|]. eapply IH; [| | | |exact H]; auto; lia.
+  - apply nfail_nf in H; auto.
+  - apply nfail_nf in H; auto.
+  - eapply nested_nf; eauto.
+Qed.
+Lemma begin_loop_nf f : forall s group, pos group = 0 -> delim group <> [] ->
+  zlen (input group) < Z.of_nat f -> zlen (input group) + 2 <= Z.of_nat fn ->
+  begin_loop o nested f s group <> OutOfFuel.
+Proof.
+  induction f as [|f IH]; intros s body Hp Hd Hl Hn H; simpl in H; [pose proof (zlen_nonneg (input body)); lia|].
+  destruct (nested body) as [[body' [st|]]|e| |] eqn:En; try discriminate.
+  - destruct (nested_mono _ _ _ Hp Hd En) as (_ & M2 & M3). pose proof (nested_prog _ _ _ Hp Hd En).
+    destruct (re_end (Text st)).
+    + destruct (_ || _); [discriminate|]. eapply IH; [| | | |exact H]; auto; lia.
+    + destruct (_ && _); [discriminate|]. eapply IH; [| | | |exact H]; auto; lia.
+  - apply nfail_nf in H; auto.
+  - apply nfail_nf in H; auto.
+  - eapply nested_nf; eauto.
+Qed.
+
+Lemma skipBeginAtomic_nf f s : 1 <= pos s -> rem s < Z.of_nat f -> rem s + 2 <= Z.of_nat fn ->
+  skipBeginAtomic nested f s <> OutOfFuel.
+Proof.
+  unfold skipBeginAtomic. intros Hp Hr Hn H. nf_bind H; [apply slice_from_not_fuel in H; auto|].
+  destruct (re_begin_atomic a) as [n|] eqn:E; [|apply nfail_nf in H; auto].
+  apply re_begin_word_pos in E. nf_bind H; [apply slice_from_not_fuel in H; auto|].
+  apply slice_from_ok in Ha0 as [Hb ->]. simpl in Hb.
+  destruct (init (new_scanner false) _) as [body|e| |] eqn:Ei; try discriminate.
+  - destruct (init_total _ _ _ Ei) as (_ & T2 & T3). pose proof (init_input_len _ _ _ Ei) as Hl.
+    rewrite zlen_skipn in Hl by (simpl; lia). simpl in Hl. unfold rem in *.
+    eapply atomic_loop_nf; [| | | |exact H]; auto; lia.
+  - apply init_nf in Ei; auto.
+Qed.
+Lemma skipBegin_nf f s : 1 <= pos s -> rem s < Z.of_nat f -> rem s + 2 <= Z.of_nat fn ->
+  skipBegin o nested f s <> OutOfFuel.
+Proof.
+  unfold skipBegin. intros Hp Hr Hn H. nf_bind H; [apply slice_from_not_fuel in H; auto|].
+  destruct (re_begin a) as [n|] eqn:E; [|apply nfail_nf in H; auto].
+  apply re_begin_pos in E. nf_bind H; [apply slice_from_not_fuel in H; auto|].
+  apply slice_from_ok in Ha0 as [Hb ->]. simpl in Hb.
+  destruct (init (new_scanner (BeginEndTerminator o)) _) as [body|e| |] eqn:Ei; try discriminate.
+  - destruct (init_total _ _ _ Ei) as (_ & T2 & T3). pose proof (init_input_len _ _ _ Ei) as Hl.
+    rewrite zlen_skipn in Hl by (simpl; lia). simpl in Hl. unfold rem in *.
+    eapply begin_loop_nf; [| | | |exact H]; auto; lia.
+  - apply init_nf in Ei; auto.
+Qed.
+
+Lemma after_block_nf r d op : after_block r d op = OutOfFuel -> r = OutOfFuel.
+Proof.
+  unfold after_block. intros H. nf_bind H; [exact H|]. destruct a as [s1 [e|]]; [discriminate|].
+  nf_bind H; [apply slice_to_nf in H; contradiction|discriminate].
+Qed.
+
+Lemma stmt_iter_nf f s0 depth opos :
+  rem s0 <= Z.of_nat f -> rem s0 + 1 <= Z.of_nat fn ->
+  stmt_iter o nested f s0 depth opos <> OutOfFuel.
+Proof.
+  unfold stmt_iter. intros Hr Hn H. nf_bind H; [apply next_nf in H; auto|]. destruct a as [[c|] s].
+  2:{ destruct (0 <? depth); [apply fail_nf in H; auto|]. destruct (0 <? pos s); discriminate. }
+  pose proof (next_rem _ _ _ Ha) as R1. pose proof (next_some_rem _ _ _ Ha) as R2.
+  assert (1 <= pos s) as Hps.
+  { apply next_some in Ha as (rest & w & H1 & H2 & H3 & -> & H4).
+    destruct (decode_rune_spec _ _ _ H3 H2) as [Hw _]. simpl. lia. }
+  clear Ha.
+  destruct (N.eqb c 40); [discriminate|].
+  destruct (N.eqb c 41). { destruct (depth =? 0); [apply fail_nf in H; auto|discriminate]. }
+  destruct (N.eqb c 39 || N.eqb c 34 || N.eqb c 96).
+  { nf_bind H; [eapply skipQuote_nf; [| |exact H]; lia|discriminate]. }
+  nf_bind H.
+  { destruct (_ && _); [|discriminate]. nf_bind H; [apply slice_to_nf in H; auto|discriminate]. }
+  destruct a.
+  { destruct ((pos s =? 1) && (zlen S_DELIMITER <? zlen (input s))) eqn:E; [|discriminate]. bnorm.
+    change (zlen S_DELIMITER) with 9 in *.
+    nf_bind H; [|discriminate]. eapply delimCmd_nf; [| |exact H]; unfold rem in *; simpl; lia. }
+  clear Ha. rewrite noGo in H. simpl in H.
+  nf_bind H.
+  { destruct (depth =? 0); [|discriminate]. nf_bind H; [apply slice_from_not_fuel in H; auto|discriminate]. }
+  destruct a. { nf_bind H; [apply slice_to_nf in H; auto|discriminate]. }
+  clear Ha. nf_bind H.
+  { destruct (_ && _); [|discriminate]. nf_bind H; [apply slice_from_not_fuel in H; auto|discriminate]. }
+  destruct a. { nf_bind H; [eapply skipDollarQuote_nf; [| | |exact H]; lia|discriminate]. }
+  clear Ha.
+  destruct (N.eqb c 35 && HashComments o). { nf_bind H; [apply comment_nf in H; auto|discriminate]. }
+  nf_bind H. { destruct (N.eqb c 45); [apply pick_nf in H; auto|discriminate]. }
+  destruct (N.eqb c 45 && rune_is a 45).
+  { nf_bind H; [apply next_nf in H; auto|]. nf_bind H; [apply comment_nf in H; auto|discriminate]. }
+  clear Ha. nf_bind H. { destruct (N.eqb c 47); [apply pick_nf in H; auto|discriminate]. }
+  destruct (N.eqb c 47 && rune_is a0 42).
+  { nf_bind H; [apply next_nf in H; auto|]. nf_bind H; [apply comment_nf in H; auto|discriminate]. }
+  clear Ha. nf_bind H.
+  { destruct (endterm s); [|discriminate]. nf_bind H; [apply slice_to_nf in H; auto|discriminate]. }
+  destruct a1. { nf_bind H; [apply slice_to_nf in H; auto|discriminate]. }
+  clear Ha. nf_bind H.
+  { destruct (_ && _); [|discriminate]. nf_bind H; [apply slice_from_not_fuel in H; auto|discriminate]. }
+  destruct a1. { apply after_block_nf in H. eapply skipBeginAtomic_nf; [| | |exact H]; lia. }
+  clear Ha. rewrite noTry, andb_false_r in H. simpl in H.
+  nf_bind H.
+  { destruct (_ && _); [|discriminate]. destruct (pos s =? 1).
+    - nf_bind H; [apply slice_from_not_fuel in H; auto|discriminate].
+    - destruct (1 <? pos s); [|discriminate]. nf_bind H; [apply slice_from_not_fuel in H; auto|discriminate]. }
+  destruct a1; [|discriminate]. apply after_block_nf in H. eapply skipBegin_nf; [| | |exact H]; lia.
+Qed.
+
+Lemma stmt_iter_continue_rem f s0 d op s1 d1 o1 :
+  stmt_iter o nested f s0 d op = Ok (Continue s1 d1 o1) -> 1 <= rem s0.
+Proof.
+  unfold stmt_iter. intros H. inv_bind H. destruct a as [[c|] s]; [eapply next_some_rem; eauto|].
+  destruct (0 <? d); [apply fail_not_ok in H; contradiction|]. destruct (0 <? pos s); discriminate.
+Qed.
+
+Lemma stmt_loop_nf lf : forall s d op,
+  starts_space (input s) = false -> delim s <> [] -> (0 < lf)%nat ->
+  rem s < Z.of_nat lf -> rem s + 1 <= Z.of_nat fn ->
+  stmt_loop o nested lf s d op <> OutOfFuel.
+Proof.
+  induction lf as [|lf IH]; intros s d op Hns Hd Hlf Hr Hn H; simpl in H; [lia|].
+  nf_bind H; [eapply stmt_iter_nf; [| |exact H]; lia|].
+  pose proof (stmt_iter_spec o nested nested_mono noGo noTry _ _ _ _ _ Ha Hns Hd) as Hit.
+  destruct a as [s1 d1 o1|s1 text|s1].
+  - pose proof (stmt_iter_continue_rem _ _ _ _ _ _ _ Ha) as Hr1.
+    destruct Hit as [[A Hlt]|[(S1 & S2 & S3 & S4 & S5) [Hp0 Hlen]]].
+    + destruct A as (A1 & A2 & A3 & A4). eapply IH; [| | | | |exact H]; unfold rem in *; rewrite ?A1, ?A2; auto; lia.
+    + eapply IH; [| | | | |exact H]; auto; unfold rem in *; lia.
+  - nf_bind H; [apply emit_nf in H; auto|discriminate].
+  - discriminate.
+Qed.
+End NestedNF.
+
+Section StmtNF.
+Variable o : opts.
+Hypothesis noGo : GoCommand o = false.
+Hypothesis noTry : MatchBeginTryCatch o = false.
+
+Lemma stmt_prog f b b' st : pos b = 0 -> delim b <> [] -> stmt o f b = Ok (b', Some st) ->
+  zlen (input b') < zlen (input b).
+Proof.
+  intros Hp Hd H. destruct (stmt_spec o noGo noTry _ _ _ _ H Hp Hd) as (_ & _ & _ & g & raw & Hin & _ & _ & Hne & _).
+  rewrite Hin, !zlen_app. pose proof (zlen_nonneg g).
+  destruct raw; [congruence|]. rewrite zlen_cons. pose proof (zlen_nonneg raw). lia.
+Qed.
+Lemma stmt_mono f b b' r : pos b = 0 -> delim b <> [] -> stmt o f b = Ok (b', r) ->
+  total b <= total b' /\ pos b' = 0 /\ delim b' <> [].
+Proof.
+  intros Hp Hd H. eapply (StmtResult_mono o noGo noTry); [eapply (stmt_spec o noGo noTry); eauto|reflexivity|reflexivity].
+Qed.
+
+Lemma stmt_nf f : forall s, pos s = 0 -> delim s <> [] -> zlen (input s) + 2 <= Z.of_nat f ->
+  stmt o f s <> OutOfFuel.
+Proof.
+  induction f as [|f IH]; intros s Hp Hd Hl H; [pose proof (zlen_nonneg (input s)); lia|].
+  cbn [stmt] in H.
+  destruct (trim_left_decomp (input s)) as (sp & Hsp & Hsp2 & Hsp3).
+  assert (zlen (trim_left_space (input s)) <= zlen (input s)) as Hle.
+  { rewrite Hsp at 2. rewrite zlen_app. pose proof (zlen_nonneg sp). lia. }
+  pose proof (zlen_nonneg (trim_left_space (input s))) as Hnn.
+  eapply (stmt_loop_nf o (stmt o f) f); [| | |exact noGo|exact noTry| | | | | |exact H].
+  - intros b b' r. apply stmt_mono.
+  - intros b b' st. apply stmt_prog.
+  - intros b Hb1 Hb2 Hb3. apply IH; auto.
+  - exact Hsp3.
+  - exact Hd.
+  - lia.
+  - unfold rem, skipSpaces; simpl. lia.
+  - unfold rem, skipSpaces; simpl. lia.
+Qed.
+
+Lemma scan_loop_nf f : forall s acc, pos s = 0 -> delim s <> [] -> zlen (input s) + 2 <= Z.of_nat f ->
+  scan_loop o f s acc <> OutOfFuel.
+Proof.
+  induction f as [|f IH]; intros s acc Hp Hd Hl H; [pose proof (zlen_nonneg (input s)); lia|].
+  cbn [scan_loop] in H. nf_bind H; [eapply stmt_nf; [| | |exact H]; auto|].
+  destruct a as [s1 [st|]]; [|discriminate].
+  destruct (stmt_mono _ _ _ _ Hp Hd Ha) as (_ & M2 & M3). pose proof (stmt_prog _ _ _ _ Hp Hd Ha).
+  eapply IH; [| | |exact H]; auto. lia.
+Qed.
+
+Theorem Scan_terminates inp : Scan o (fuel_of inp) inp <> OutOfFuel.
+Proof.
+  unfold Scan. intros H. nf_bind H; [apply init_nf in H; auto|].
+  destruct (init_total _ _ _ Ha) as (_ & T2 & T3). pose proof (init_input_len _ _ _ Ha).
+  eapply scan_loop_nf; [| | |exact H]; auto. unfold fuel_of, zlen in *. lia.
+Qed.
+End StmtNF.
